@@ -8,7 +8,30 @@ pub const PRE_GRAMMAR: &str = "/repo/src/lib/preprocessor/preprocessor.lalrpop";
 
 /// all double-quoted terminals on the left of `=>` or alone in an alternative list
 pub fn all_terminals() -> BTreeSet<String> {
-    let txt = std::fs::read_to_string(PRE_GRAMMAR).unwrap_or_default();
+    terminals_of(PRE_GRAMMAR)
+}
+
+pub const DOWNSTREAM_GRAMMARS: [&str; 3] = ["/repo/src/lib/interpreter/interpreter.lalrpop", "/repo/src/lib/data_parser/data_parser.lalrpop", "/repo/src/driver/print.lalrpop"];
+
+/// identifier-like terminals that one of the downstream grammars (interpreter, data loader, print reader) of the
+/// working tree knows although the assembler's grammar does not: such a word is an ordinary NAME for the
+/// assembler and a keyword further down
+pub fn downstream_only_words() -> Vec<String> {
+    let pre = all_terminals();
+    let mut out: BTreeSet<String> = BTreeSet::new();
+    for g in DOWNSTREAM_GRAMMARS {
+        for t in terminals_of(g) {
+            let ident = t.chars().next().map(|c| c == '_' || c.is_ascii_alphabetic()).unwrap_or(false) && t.chars().all(|c| c == '_' || c.is_ascii_alphanumeric());
+            if ident && !pre.contains(&t) {
+                out.insert(t);
+            }
+        }
+    }
+    out.into_iter().collect()
+}
+
+pub fn terminals_of(path: &str) -> BTreeSet<String> {
+    let txt = std::fs::read_to_string(path).unwrap_or_default();
     let mut out = BTreeSet::new();
     for line in txt.lines() {
         let l = line.trim();
